@@ -18,15 +18,17 @@ Proof. induction n as [|n IH]; [reflexivity|]. unfold all_space, sp, spaces in *
 
 (* ---------------------------------------------------------------- layout *)
 
-Fixpoint lt_items (w : bytes) (items : list bytes) : list ltok :=
+(* [sw]: the white space written after the commas of a string list ([32] by Command.tosieve for a Python list,
+   nothing by the filter factory's __quote_list) *)
+Fixpoint lt_items (sw w : bytes) (items : list bytes) : list ltok :=
   match items with
   | [] => []
-  | v :: r => (w, TString, v) :: match r with [] => [] | _ => ([], TComma, [44%N]) :: lt_items [32%N] r end
+  | v :: r => (w, TString, v) :: match r with [] => [] | _ => ([], TComma, [44%N]) :: lt_items sw sw r end
   end.
 
-Definition lt_arg (w : bytes) (a : argument) : list ltok :=
+Definition lt_arg (sw w : bytes) (a : argument) : list ltok :=
   match a with
-  | (TyStringList, VList items) => (w, TLeftBracket, [91%N]) :: lt_items [] items ++ [([], TRightBracket, [93%N])]
+  | (TyStringList, VList items) => (w, TLeftBracket, [91%N]) :: lt_items sw [] items ++ [([], TRightBracket, [93%N])]
   | (TyString, VStr s) => [(w, str_kind s, s)]
   | (TyNumber, VStr s) => [(w, TNumber, s)]
   | (TyTag, VStr s) => [(w, TTag, s)]
@@ -43,16 +45,21 @@ Definition is_ml (a : argument) : bool :=
 
 Definition carry_of (a : argument) : bytes := if is_ml a then [10%N] else [].
 
-Fixpoint lt_args_c (cin : bytes) (args : list argument) : list ltok :=
+Fixpoint lt_args_c (sw cin : bytes) (args : list argument) : list ltok :=
   match args with
   | [] => []
-  | a :: r => lt_arg (cin ++ [32%N]) a ++ lt_args_c (carry_of a) r
+  | a :: r => lt_arg sw (cin ++ [32%N]) a ++ lt_args_c sw (carry_of a) r
   end.
 
 Fixpoint args_carry (cin : bytes) (args : list argument) : bytes :=
   match args with [] => cin | a :: r => args_carry (carry_of a) r end.
 
-Definition lt_args (args : list argument) : list ltok := lt_args_c [] args.
+Definition lt_args (sw : bytes) (args : list argument) : list ltok := lt_args_c sw [] args.
+
+Section Sep.
+(* the separator used inside the string lists of a command, by command name *)
+Variable sepw : bytes -> bytes.
+Hypothesis sepw_space : forall name, all_space (sepw name).
 
 (* the line feed a test leaves pending *)
 Fixpoint tcarry (t : gtest) : bytes :=
@@ -64,7 +71,7 @@ Fixpoint tcarry (t : gtest) : bytes :=
 
 Fixpoint lt_test (ind : nat) (w : bytes) (t : gtest) : list ltok :=
   match t with
-  | GSimple name args => (w, TIdentifier, name) :: lt_args args
+  | GSimple name args => (w, TIdentifier, name) :: lt_args (sepw name) args
   | GNot name t' => (w, TIdentifier, name) :: lt_test ind (32%N :: sp ind) t'
   | GList name ts =>
       (w, TIdentifier, name) :: ([32%N], TLeftParen, [40%N]) ::
@@ -90,7 +97,7 @@ Proof. reflexivity. Qed.
 
 Fixpoint lt_cmd (ind : nat) (w : bytes) (c : gcmd) : list ltok :=
   match c with
-  | GAct name args => (w ++ sp ind, TIdentifier, name) :: lt_args args ++ [(args_carry [] args, TSemicolon, [59%N])]
+  | GAct name args => (w ++ sp ind, TIdentifier, name) :: lt_args (sepw name) args ++ [(args_carry [] args, TSemicolon, [59%N])]
   | GCtl name t body =>
       (w ++ sp ind, TIdentifier, name) :: lt_test ind (32%N :: sp ind) t ++ (tcarry t ++ [32%N], TLeftCBracket, [123%N]) ::
       flat_map (lt_cmd (ind + 4) [10%N]) body ++ [(10%N :: sp ind, TRightCBracket, [125%N])]
@@ -108,30 +115,30 @@ Definition lt_cmds (ind : nat) (w : bytes) (cs : list gcmd) : list ltok :=
 
 (* ---------------------------------------------------------------- its tokens are the tokens of the script *)
 
-Lemma ltoks_items : forall items w, ltoks (lt_items w items) = item_toks items.
+Lemma ltoks_items : forall sw items w, ltoks (lt_items sw w items) = item_toks items.
 Proof.
-  induction items as [|v r IH]; intro w; [reflexivity|].
+  intro sw. induction items as [|v r IH]; intro w; [reflexivity|].
   cbn [lt_items item_toks]. destruct r as [|v2 r2]; [reflexivity|].
-  cbn [ltoks map fst snd]. f_equal. f_equal. apply (IH [32%N]).
+  cbn [ltoks map fst snd]. f_equal. f_equal. apply (IH sw).
 Qed.
 
-Lemma ltoks_arg : forall w a, ltoks (lt_arg w a) = arg_toks a.
+Lemma ltoks_arg : forall sw w a, ltoks (lt_arg sw w a) = arg_toks a.
 Proof.
-  intros w [[] [s0|items|n0|ns0]]; try reflexivity.
+  intros sw w [[] [s0|items|n0|ns0]]; try reflexivity.
   cbn [lt_arg arg_toks]. cbn [ltoks map fst snd]. f_equal.
-  change (map (fun x : ltok => mk (snd (fst x)) (snd x)) (lt_items [] items ++ [([], TRightBracket, [93%N])]))
-    with (ltoks (lt_items [] items ++ [([], TRightBracket, [93%N])])).
+  change (map (fun x : ltok => mk (snd (fst x)) (snd x)) (lt_items sw [] items ++ [([], TRightBracket, [93%N])]))
+    with (ltoks (lt_items sw [] items ++ [([], TRightBracket, [93%N])])).
   rewrite ltoks_app, ltoks_items. reflexivity.
 Qed.
 
-Lemma ltoks_args_c : forall args cin, ltoks (lt_args_c cin args) = flat_map arg_toks args.
+Lemma ltoks_args_c : forall sw args cin, ltoks (lt_args_c sw cin args) = flat_map arg_toks args.
 Proof.
-  induction args as [|a r IH]; intro cin; [reflexivity|].
+  intro sw. induction args as [|a r IH]; intro cin; [reflexivity|].
   cbn [lt_args_c flat_map]. rewrite ltoks_app, ltoks_arg, IH. reflexivity.
 Qed.
 
-Lemma ltoks_args : forall args, ltoks (lt_args args) = flat_map arg_toks args.
-Proof. intro args. apply ltoks_args_c. Qed.
+Lemma ltoks_args : forall sw args, ltoks (lt_args sw args) = flat_map arg_toks args.
+Proof. intros sw args. apply ltoks_args_c. Qed.
 
 Lemma ltoks_cons : forall w k v l, ltoks ((w, k, v) :: l) = mk k v :: ltoks l.
 Proof. reflexivity. Qed.
@@ -139,7 +146,7 @@ Proof. reflexivity. Qed.
 Lemma ltoks_test : forall t ind w, ltoks (lt_test ind w t) = toks_test t.
 Proof.
   fix IH 1. intros t ind w. destruct t as [name args|name t'|name ts].
-  - cbn [lt_test toks_test]. change (ltoks ((w, TIdentifier, name) :: lt_args args)) with (mk TIdentifier name :: ltoks (lt_args args)).
+  - cbn [lt_test toks_test]. change (ltoks ((w, TIdentifier, name) :: lt_args (sepw name) args)) with (mk TIdentifier name :: ltoks (lt_args (sepw name) args)).
     rewrite ltoks_args. reflexivity.
   - cbn [lt_test toks_test].
     change (ltoks ((w, TIdentifier, name) :: lt_test ind (32%N :: sp ind) t'))
@@ -214,19 +221,19 @@ Proof.
   split; [destruct k; inversion Hp; exact I|exact I].
 Qed.
 
-Lemma lchain_items : forall items w X,
-  all_space w -> Forall exact_string items -> lchain (lt_items w items) X.
+Lemma lchain_items : forall sw items w X,
+  all_space sw -> all_space w -> Forall exact_string items -> lchain (lt_items sw w items) X.
 Proof.
-  induction items as [|v r IH]; intros w X Hw Hall; [exact I|].
+  intros sw items w X Hsw. revert w X. induction items as [|v r IH]; intros w X Hw Hall; [exact I|].
   inversion Hall as [|v' r' Hv Hr]; subst. cbn [lt_items lchain].
   split; [exact Hw|]. split; [exact Hv|]. split; [exact I|].
   destruct r as [|v2 r2]; [exact I|]. cbn [lchain].
-  split; [exact space_nil|]. split; [exists 44%N; auto|]. split; [exact I|]. apply IH; [exact space_32|exact Hr].
+  split; [exact space_nil|]. split; [exists 44%N; auto|]. split; [exact I|]. apply IH; [exact Hsw|exact Hr].
 Qed.
 
-Lemma lt_arg_head : forall a w, arg_pr a -> exists k v r, lt_arg w a = (w, k, v) :: r.
+Lemma lt_arg_head : forall sw a w, arg_pr a -> exists k v r, lt_arg sw w a = (w, k, v) :: r.
 Proof.
-  intros [[] [s0|items|n0|ns0]] w H; cbn in H; try contradiction; cbn [lt_arg]; eauto.
+  intros sw [[] [s0|items|n0|ns0]] w H; cbn in H; try contradiction; cbn [lt_arg]; eauto.
 Qed.
 
 Lemma exact_str_kind : forall s, exact_string s -> str_kind s = TString.
@@ -239,10 +246,10 @@ Proof. intros s H. unfold is_ml. rewrite (exact_str_kind s H). reflexivity. Qed.
 Definition after_arg (a : argument) (X : bytes) : Prop :=
   if is_ml a then X = [] \/ exists t, X = 10%N :: t else tail_delim X.
 
-Lemma lchain_arg : forall a w X,
-  all_space w -> arg_pr a -> after_arg a X -> lchain (lt_arg w a) X.
+Lemma lchain_arg : forall sw a w X,
+  all_space sw -> all_space w -> arg_pr a -> after_arg a X -> lchain (lt_arg sw w a) X.
 Proof.
-  intros [[] [s0|items|n0|ns0]] w X Hw H HX; cbn in H; try contradiction; unfold after_arg in HX; cbn [lt_arg lchain lrender app].
+  intros sw [[] [s0|items|n0|ns0]] w X Hsw Hw H HX; cbn in H; try contradiction; unfold after_arg in HX; cbn [lt_arg lchain lrender app].
   - (* tag *) cbn [is_ml] in HX. split; [exact Hw|]. split; [exact H|]. split; [exact HX|exact I].
   - (* string *)
     destruct H as [H|(Hk & Hm)].
@@ -251,7 +258,7 @@ Proof.
   - (* list *)
     destruct H as (Hne & Hall).
     split; [exact Hw|]. split; [exists 91%N; auto|]. split; [exact I|].
-    apply lchain_app; [apply lchain_items; [exact space_nil|exact Hall]|].
+    apply lchain_app; [apply lchain_items; [exact Hsw|exact space_nil|exact Hall]|].
     apply (lchain_punct [] TRightBracket 93%N); [exact space_nil|reflexivity].
   - (* number *) cbn [is_ml] in HX. split; [exact Hw|]. split; [exact H|]. split; [exact HX|exact I].
 Qed.
@@ -260,14 +267,14 @@ Lemma carry_space : forall a, all_space (carry_of a).
 Proof. intro a. unfold carry_of. destruct (is_ml a); reflexivity. Qed.
 
 (* the text of the remaining arguments starts with the pending line feed, then a blank (or what follows) *)
-Lemma rest_shape : forall r c Y, Forall arg_pr r ->
-  exists Z, lrender (lt_args_c c r) ++ args_carry c r ++ Y = c ++ Z /\
+Lemma rest_shape : forall sw r c Y, Forall arg_pr r ->
+  exists Z, lrender (lt_args_c sw c r) ++ args_carry c r ++ Y = c ++ Z /\
             (r = [] -> Z = Y) /\ (r <> [] -> exists Z', Z = 32%N :: Z').
 Proof.
-  intros [|a r] c Y H.
+  intros sw [|a r] c Y H.
   - exists Y. cbn. split; [reflexivity|]. split; [reflexivity|congruence].
   - inversion H as [|a' r' Ha Hr]; subst. cbn [lt_args_c args_carry].
-    destruct (lt_arg_head a (c ++ [32%N]) Ha) as (k & v & r0 & ->). cbn [app lrender].
+    destruct (lt_arg_head sw a (c ++ [32%N]) Ha) as (k & v & r0 & ->). cbn [app lrender].
     eexists. split; [rewrite <- !app_assoc; cbn [app]; reflexivity|]. split; [discriminate|]. intros _. eexists. reflexivity.
 Qed.
 
@@ -277,15 +284,16 @@ Proof.
   intros a X Z -> H. unfold after_arg, carry_of in *. destruct (is_ml a); [right; eexists; reflexivity|exact H].
 Qed.
 
-Lemma lchain_args_c : forall args cin Y,
+Lemma lchain_args_c : forall sw args cin Y,
+  all_space sw ->
   Forall arg_pr args -> all_space cin -> tail_delim (args_carry cin args ++ Y) ->
-  lchain (lt_args_c cin args) (args_carry cin args ++ Y).
+  lchain (lt_args_c sw cin args) (args_carry cin args ++ Y).
 Proof.
-  induction args as [|a r IH]; intros cin Y Hall Hc HY; [exact I|].
+  intros sw args cin Y Hsw. revert cin Y. induction args as [|a r IH]; intros cin Y Hall Hc HY; [exact I|].
   inversion Hall as [|a' r' Ha Hr]; subst. cbn [lt_args_c args_carry] in *.
   apply lchain_app; [|apply IH; [exact Hr|apply carry_space|exact HY]].
-  apply lchain_arg; [apply space_app; [exact Hc|exact space_32]|exact Ha|].
-  destruct (rest_shape r (carry_of a) Y Hr) as (Z & E & Z0 & Z1). rewrite E.
+  apply lchain_arg; [exact Hsw|apply space_app; [exact Hc|exact space_32]|exact Ha|].
+  destruct (rest_shape sw r (carry_of a) Y Hr) as (Z & E & Z0 & Z1). rewrite E.
   apply (after_arg_from_shape a _ Z eq_refl).
   destruct r as [|a2 r2].
   - rewrite (Z0 eq_refl). cbn [args_carry] in HY. exact HY.
@@ -293,17 +301,17 @@ Proof.
 Qed.
 
 (* what follows a command or test name *)
-Lemma args_after_name : forall args Y, Forall arg_pr args -> tail_delim (args_carry [] args ++ Y) ->
-  tail_delim (lrender (lt_args args) ++ args_carry [] args ++ Y).
+Lemma args_after_name : forall sw args Y, Forall arg_pr args -> tail_delim (args_carry [] args ++ Y) ->
+  tail_delim (lrender (lt_args sw args) ++ args_carry [] args ++ Y).
 Proof.
-  intros args Y Hall HY. unfold lt_args. destruct (rest_shape args [] Y Hall) as (Z & E & Z0 & Z1). rewrite E. cbn [app].
+  intros sw args Y Hall HY. unfold lt_args. destruct (rest_shape sw args [] Y Hall) as (Z & E & Z0 & Z1). rewrite E. cbn [app].
   destruct args as [|a r]; [rewrite (Z0 eq_refl); exact HY|].
   destruct (Z1 ltac:(discriminate)) as (Z' & ->). reflexivity.
 Qed.
 
-Lemma lchain_args : forall args Y, Forall arg_pr args -> tail_delim (args_carry [] args ++ Y) ->
-  lchain (lt_args args) (args_carry [] args ++ Y).
-Proof. intros args Y H HY. apply lchain_args_c; [exact H|exact space_nil|exact HY]. Qed.
+Lemma lchain_args : forall sw args Y, all_space sw -> Forall arg_pr args -> tail_delim (args_carry [] args ++ Y) ->
+  lchain (lt_args sw args) (args_carry [] args ++ Y).
+Proof. intros sw args Y Hsw H HY. apply lchain_args_c; [exact Hsw|exact H|exact space_nil|exact HY]. Qed.
 
 Lemma lt_test_head : forall t ind w, exists name r, lt_test ind w t = (w, TIdentifier, name) :: r.
 Proof. intros [name args|name t'|name ts] ind w; cbn [lt_test]; eauto. Qed.
@@ -328,7 +336,7 @@ Lemma lchain_test : forall t ind w Y,
 Proof.
   fix IH 1. intros t ind w Y Hp Hw HY. destruct t as [name args|name t'|name ts].
   - inversion Hp as [n a Hn Ha| |]; subst. cbn [lt_test lchain tcarry] in *.
-    split; [exact Hw|]. split; [exact Hn|]. split; [apply args_after_name; assumption|]. apply lchain_args; assumption.
+    split; [exact Hw|]. split; [exact Hn|]. split; [apply args_after_name; assumption|]. apply lchain_args; [apply sepw_space|assumption|assumption].
   - inversion Hp as [|n t0 Hn Ht|]; subst. cbn [lt_test lchain tcarry] in *.
     split; [exact Hw|]. split; [exact Hn|].
     split.
@@ -370,10 +378,10 @@ Proof.
     { apply carry_delim; [apply Hacs; exact space_nil|reflexivity]. }
     split.
     { rewrite lrender_app. cbn [lrender app]. rewrite <- !app_assoc. cbn [app].
-      apply (args_after_name args (59%N :: X) Ha Hd). }
+      apply (args_after_name (sepw name) args (59%N :: X) Ha Hd). }
     apply lchain_app; [|apply (lchain_punct _ TSemicolon 59%N); [apply Hacs; exact space_nil|reflexivity]].
     cbn [lrender app]. rewrite <- app_assoc. cbn [app].
-    apply (lchain_args args (59%N :: X) Ha Hd).
+    apply (lchain_args (sepw name) args (59%N :: X) (sepw_space name) Ha Hd).
   - inversion Hp as [|n t0 b Hn Ht Hb|]; subst.
     split; [apply space_app; [exact Hw|apply sp_space]|]. split; [exact Hn|].
     split.
@@ -527,40 +535,43 @@ Definition plain_name (d : cmddef) (name : bytes) : Prop :=
   end.
 
 (* how a stored value is written: [p] is the argument it stands for *)
-Inductive val_arg (d : cmddef) (name : bytes) (is_string : bool) : aval -> argument -> Prop :=
-| va_string : forall s, exact_string s -> val_arg d name is_string (VStr s) (TyString, VStr s)
-| va_number : forall s, num_ok s -> is_string = false -> val_arg d name is_string (VStr s) (TyNumber, VStr s)
-| va_list : forall vs, vs <> [] -> Forall exact_string vs -> plain_name d name ->
-            val_arg d name is_string (VList vs) (TyStringList, VList vs)
+Inductive val_arg (sw : bytes) (d : cmddef) (name : bytes) (is_string : bool) : aval -> argument -> Prop :=
+| va_string : forall s, exact_string s -> val_arg sw d name is_string (VStr s) (TyString, VStr s)
+| va_number : forall s, num_ok s -> is_string = false -> val_arg sw d name is_string (VStr s) (TyNumber, VStr s)
+| va_list : forall vs, sw = [32%N] -> vs <> [] -> Forall exact_string vs -> plain_name d name ->
+            val_arg sw d name is_string (VList vs) (TyStringList, VList vs)
 | va_ml : forall s, str_kind s = TMultiline -> ml_ok s -> is_string = true ->
-          val_arg d name is_string (VStr s) (TyString, VStr s).
+          val_arg sw d name is_string (VStr s) (TyString, VStr s)
+(* a string list handed over as its text "[a,b]" (what FiltersSet.__quote_list produces) *)
+| va_qlist : forall vs, sw = [] -> vs <> [] -> Forall exact_string vs ->
+             val_arg sw d name is_string (VStr (91%N :: join [44%N] vs ++ [93%N])) (TyStringList, VList vs).
 
 (* the maps [am] / [em] of a node, read slot by slot in the order of the definition, are the arguments [args] *)
-Inductive slots_args (d : cmddef) (am em : list (bytes * aval)) : list argdef -> list argument -> Prop :=
-| sa_nil : slots_args d am em [] []
+Inductive slots_args (sw : bytes) (d : cmddef) (am em : list (bytes * aval)) : list argdef -> list argument -> Prop :=
+| sa_nil : slots_args sw d am em [] []
 | sa_absent : forall a rest args,
-    assoc_get (a_name a) am = None -> slots_args d am em rest args -> slots_args d am em (a :: rest) args
+    assoc_get (a_name a) am = None -> slots_args sw d am em rest args -> slots_args sw d am em (a :: rest) args
 | sa_tag : forall a rest args s,
     atype_mem TyTag (a_type a) = true -> assoc_get (a_name a) am = Some (VStr s) -> tag_ok s = true ->
     (assoc_get (a_name a) em = None \/ a_extra a = None) ->
-    slots_args d am em rest args -> slots_args d am em (a :: rest) ((TyTag, VStr s) :: args)
+    slots_args sw d am em rest args -> slots_args sw d am em (a :: rest) ((TyTag, VStr s) :: args)
 | sa_tag_param : forall a rest args s ev ex p,
     atype_mem TyTag (a_type a) = true -> assoc_get (a_name a) am = Some (VStr s) -> tag_ok s = true ->
     assoc_get (a_name a) em = Some ev -> a_extra a = Some ex ->
-    val_arg d (a_name a) (has_string_ex (ex_type ex)) ev p ->
-    slots_args d am em rest args -> slots_args d am em (a :: rest) ((TyTag, VStr s) :: p :: args)
+    val_arg sw d (a_name a) (has_string_ex (ex_type ex)) ev p ->
+    slots_args sw d am em rest args -> slots_args sw d am em (a :: rest) ((TyTag, VStr s) :: p :: args)
 | sa_pos : forall a rest args v p,
     atype_mem TyTag (a_type a) = false -> assoc_get (a_name a) am = Some v ->
-    val_arg d (a_name a) (has_string_list (a_type a)) v p ->
-    slots_args d am em rest args -> slots_args d am em (a :: rest) (p :: args).
+    val_arg sw d (a_name a) (has_string_list (a_type a)) v p ->
+    slots_args sw d am em rest args -> slots_args sw d am em (a :: rest) (p :: args).
 
-Lemma join_items_layout : forall vs w, vs <> [] -> lrender (lt_items w vs) = w ++ join [44%N; 32%N] vs.
+Lemma join_items_layout : forall sw vs w, vs <> [] -> lrender (lt_items sw w vs) = w ++ join (44%N :: sw) vs.
 Proof.
-  induction vs as [|v r IH]; intros w Hne; [congruence|].
+  intro sw. induction vs as [|v r IH]; intros w Hne; [congruence|].
   cbn [lt_items lrender]. destruct r as [|v2 r2].
   - cbn. rewrite app_nil_r. reflexivity.
-  - cbn [lrender app]. rewrite (IH [32%N]) by discriminate.
-    change (join [44%N; 32%N] (v :: v2 :: r2)) with (v ++ [44%N; 32%N] ++ join [44%N; 32%N] (v2 :: r2)).
+  - cbn [lrender app]. rewrite (IH sw) by discriminate.
+    change (join (44%N :: sw) (v :: v2 :: r2)) with (v ++ (44%N :: sw) ++ join (44%N :: sw) (v2 :: r2)).
     cbn [app]. reflexivity.
 Qed.
 
@@ -573,13 +584,13 @@ Qed.
 Lemma exact_starts_quote : forall s, exact_string s -> starts_with [34%N] s = true.
 Proof. intros s H. destruct (exact_string_shape s H) as (body & -> & _). reflexivity. Qed.
 
-Lemma lt_arg_w : forall p w, arg_pr p -> lrender (lt_arg w p) = w ++ lrender (lt_arg [] p).
+Lemma lt_arg_w : forall sw p w, arg_pr p -> lrender (lt_arg sw w p) = w ++ lrender (lt_arg sw [] p).
 Proof.
-  intros [[] [s0|items|n0|ns0]] w H; cbn in H; try contradiction; cbn [lt_arg lrender app]; reflexivity.
+  intros sw [[] [s0|items|n0|ns0]] w H; cbn in H; try contradiction; cbn [lt_arg lrender app]; reflexivity.
 Qed.
 
-Lemma val_arg_pr : forall d name b v p, val_arg d name b v p -> arg_pr p.
-Proof. intros d name b v p H. destruct H; cbn; auto. Qed.
+Lemma val_arg_pr : forall sw d name b v p, val_arg sw d name b v p -> arg_pr p.
+Proof. intros sw d name b v p H. destruct H; cbn; auto. Qed.
 
 Lemma ml_starts : forall s, ml_ok s -> starts_with [34%N] s = false /\ starts_with [91%N] s = false.
 Proof.
@@ -588,39 +599,43 @@ Proof.
 Qed.
 
 (* the text of a value: its tokens, then the line feed a multi-line string leaves behind *)
-Lemma val_layout : forall d pt0 pti name b v p,
-  val_arg d name b v p -> p_value d pt0 pti b name v = lrender (lt_arg [] p) ++ carry_of p.
+Lemma val_layout : forall sw d pt0 pti name b v p,
+  val_arg sw d name b v p -> p_value d pt0 pti b name v = lrender (lt_arg sw [] p) ++ carry_of p.
 Proof.
-  intros d pt0 pti name b v p H. destruct H as [s Hs|s Hs Hb|vs Hne Hall Hpl|s Hk Hm Hb]; cbn [p_value lt_arg lrender app].
+  intros sw d pt0 pti name b v p H. destruct H as [s Hs|s Hs Hb|vs Hsw Hne Hall Hpl|s Hk Hm Hb|vs Hsw Hne Hall]; cbn [p_value lt_arg lrender app].
   - unfold carry_of. rewrite (is_ml_exact s Hs).
     unfold print_scalar. rewrite (exact_starts_quote s Hs). cbn [orb]. destruct b; rewrite ?app_nil_r; reflexivity.
   - subst b. unfold print_scalar. rewrite !app_nil_r. reflexivity.
-  - assert (Hp : print_items vs = 91%N :: lrender (lt_items [] vs ++ [([], TRightBracket, [93%N])])).
-    { unfold print_items. rewrite (map_print_item_exact vs Hall), lrender_app, (join_items_layout vs [] Hne). reflexivity. }
+  - subst sw. assert (Hp : print_items vs = 91%N :: lrender (lt_items [32%N] [] vs ++ [([], TRightBracket, [93%N])])).
+    { unfold print_items. rewrite (map_print_item_exact vs Hall), lrender_app, (join_items_layout [32%N] vs [] Hne). reflexivity. }
     unfold carry_of. cbn [is_ml]. rewrite app_nil_r.
     unfold plain_name in Hpl. destruct (find_def (d_args d) name) as [a0|]; [|exact Hp].
     destruct (a_type a0) as [|[] [|y l]]; try exact Hp. contradiction.
   - subst b. unfold carry_of, is_ml. rewrite Hk. unfold print_scalar. destruct (ml_starts s Hm) as (A & B). rewrite A, B.
     cbn [orb]. rewrite app_nil_r. reflexivity.
+  - subst sw. unfold carry_of. cbn [is_ml]. rewrite app_nil_r.
+    rewrite lrender_app, (join_items_layout [] vs [] Hne). cbn [lrender app].
+    unfold print_scalar. cbn [starts_with N.eqb Pos.eqb andb orb]. rewrite !app_nil_r.
+    destruct b; reflexivity.
 Qed.
 
-Definition args_text (args : list argument) : bytes :=
-  concat (map (fun p => 32%N :: lrender (lt_arg [] p) ++ carry_of p) args).
+Definition args_text (sw : bytes) (args : list argument) : bytes :=
+  concat (map (fun p => 32%N :: lrender (lt_arg sw [] p) ++ carry_of p) args).
 
-Lemma args_text_layout : forall args cin, Forall arg_pr args ->
-  cin ++ args_text args = lrender (lt_args_c cin args) ++ args_carry cin args.
+Lemma args_text_layout : forall sw args cin, Forall arg_pr args ->
+  cin ++ args_text sw args = lrender (lt_args_c sw cin args) ++ args_carry cin args.
 Proof.
-  induction args as [|a r IH]; intros cin H; [cbn; rewrite app_nil_r; reflexivity|].
+  intro sw. induction args as [|a r IH]; intros cin H; [cbn; rewrite app_nil_r; reflexivity|].
   inversion H as [|a' r' Ha Hr]; subst. unfold args_text in *. cbn [map concat lt_args_c args_carry].
-  rewrite lrender_app, (lt_arg_w a (cin ++ [32%N]) Ha), <- !app_assoc. cbn [app].
+  rewrite lrender_app, (lt_arg_w sw a (cin ++ [32%N]) Ha), <- !app_assoc. cbn [app].
   rewrite <- (IH (carry_of a) Hr). rewrite <- !app_assoc. reflexivity.
 Qed.
 
-Lemma args_layout : forall d am em ch cm pt0 pti defs args,
-  slots_args d am em defs args ->
-  p_args d pt0 pti (Node d am em ch cm) defs = args_text args /\ Forall arg_pr args.
+Lemma args_layout : forall sw d am em ch cm pt0 pti defs args,
+  slots_args sw d am em defs args ->
+  p_args d pt0 pti (Node d am em ch cm) defs = args_text sw args /\ Forall arg_pr args.
 Proof.
-  intros d am em ch cm pt0 pti defs args H. unfold args_text.
+  intros sw d am em ch cm pt0 pti defs args H. unfold args_text.
   induction H as [|a rest args Ha H IH|a rest args s Ht Ha Hs Hno H IH|a rest args s ev ex p Ht Ha Hs He Hex Hv H IH
                   |a rest args v p Ht Ha Hv H IH]; cbn [p_args node_args node_extra map concat].
   - split; [reflexivity|constructor].
@@ -629,24 +644,24 @@ Proof.
     rewrite <- IH. cbn [lt_arg lrender app]. change (carry_of (TyTag, VStr s)) with (@nil N). rewrite !app_nil_r.
     destruct Hno as [Hn|Hn]; rewrite Hn; [|destruct (assoc_get (a_name a) em)]; rewrite ?app_nil_r; reflexivity.
   - destruct IH as (IH & IHp). rewrite Ha, Ht, He, Hex.
-    pose proof (val_arg_pr _ _ _ _ _ Hv) as Hpp.
+    pose proof (val_arg_pr _ _ _ _ _ _ Hv) as Hpp.
     split; [|constructor; [exact Hs|constructor; [exact Hpp|exact IHp]]].
-    rewrite <- IH, (val_layout d pt0 pti _ _ _ _ Hv).
+    rewrite <- IH, (val_layout sw d pt0 pti _ _ _ _ Hv).
     cbn [lt_arg lrender app]. change (carry_of (TyTag, VStr s)) with (@nil N). rewrite !app_nil_r. cbn [app].
     repeat (rewrite <- app_assoc || rewrite <- app_comm_cons). reflexivity.
   - destruct IH as (IH & IHp). rewrite Ha, Ht.
-    pose proof (val_arg_pr _ _ _ _ _ Hv) as Hpp.
+    pose proof (val_arg_pr _ _ _ _ _ _ Hv) as Hpp.
     split; [|constructor; [exact Hpp|exact IHp]].
-    rewrite <- IH, (val_layout d pt0 pti _ _ _ _ Hv). cbn [app]. repeat (rewrite <- app_assoc || rewrite <- app_comm_cons). reflexivity.
+    rewrite <- IH, (val_layout sw d pt0 pti _ _ _ _ Hv). cbn [app]. repeat (rewrite <- app_assoc || rewrite <- app_comm_cons). reflexivity.
 Qed.
 
 (* in the form used below: the tokens of the arguments, then the pending line feed *)
-Lemma args_layout_c : forall d am em ch cm pt0 pti defs args,
-  slots_args d am em defs args ->
-  p_args d pt0 pti (Node d am em ch cm) defs = lrender (lt_args args) ++ args_carry [] args /\ Forall arg_pr args.
+Lemma args_layout_c : forall sw d am em ch cm pt0 pti defs args,
+  slots_args sw d am em defs args ->
+  p_args d pt0 pti (Node d am em ch cm) defs = lrender (lt_args sw args) ++ args_carry [] args /\ Forall arg_pr args.
 Proof.
-  intros d am em ch cm pt0 pti defs args H. destruct (args_layout d am em ch cm pt0 pti defs args H) as (E & P).
-  split; [|exact P]. rewrite E. exact (args_text_layout args [] P).
+  intros sw d am em ch cm pt0 pti defs args H. destruct (args_layout sw d am em ch cm pt0 pti defs args H) as (E & P).
+  split; [|exact P]. rewrite E. exact (args_text_layout sw args [] P).
 Qed.
 
 (* ---------------------------------------------------------------- trees in canonical form *)
@@ -669,7 +684,7 @@ Fixpoint dc (c : gcmd) : nat :=
    definition order, each optional slot at most once *)
 Inductive canon_test : gtest -> node -> Prop :=
 | ct_simple : forall d args am em,
-    ident_ok (d_name d) = true -> d_type d = CTest -> slots_args d am em (d_args d) args ->
+    ident_ok (d_name d) = true -> d_type d = CTest -> slots_args (sepw (d_name d)) d am em (d_args d) args ->
     canon_test (GSimple (d_name d) args) (Node d am em [] [])
 | ct_not : forall d a t' n',
     ident_ok (d_name d) = true -> d_type d = CTest -> d_args d = [a] -> atype_mem TyTag (a_type a) = false ->
@@ -682,7 +697,7 @@ Inductive canon_test : gtest -> node -> Prop :=
 
 Inductive canon_cmd : gcmd -> node -> Prop :=
 | cc_act : forall d args am em,
-    ident_ok (d_name d) = true -> d_type d <> CTest -> d_accept_children d = false -> slots_args d am em (d_args d) args ->
+    ident_ok (d_name d) = true -> d_type d <> CTest -> d_accept_children d = false -> slots_args (sepw (d_name d)) d am em (d_args d) args ->
     canon_cmd (GAct (d_name d) args) (Node d am em [] [])
 | cc_ctl : forall d a t nt body ns,
     ident_ok (d_name d) = true -> d_type d = CControl -> d_accept_children d = true -> d_args d = [a] -> atype_mem TyTag (a_type a) = false ->
@@ -723,7 +738,7 @@ Theorem test_layout : forall t n, canon_test t n -> Ptest t n.
 Proof.
   fix IH 3. intros t n H. destruct H as [d args am em Hid Hty Hs|d a t' n' Hid Hty Ha Hnt Ht|d a ts ns Hid Hty Ha Htl Hne Hall];
     intros f ind w Hf; (destruct f as [|f]; [cbn in Hf; lia|]); rewrite tosieve_S; cbn [node_def node_children].
-  - destruct (args_layout_c d am em [] [] (fun t => tosieve f t 0) (fun t => tosieve f t ind) _ _ Hs) as (E & _).
+  - destruct (args_layout_c _ d am em [] [] (fun t => tosieve f t 0) (fun t => tosieve f t ind) _ _ Hs) as (E & _).
     rewrite E. cbn [lt_test lrender tcarry]. rewrite Hty.
     destruct (negb (d_accept_children d)); rewrite app_nil_r; unfold sp; rewrite <- !app_assoc; reflexivity.
   - rewrite Ha. cbn [p_args node_args]. rewrite assoc_get_one, Hnt. cbn [p_value]. rewrite Hty.
@@ -765,7 +780,7 @@ Proof.
     intro Hd. exact (IH c0 n0 H0 f i [10%N] Hd). }
   destruct H as [d args am em Hid Hty Hch Hs|d a t nt body ns Hid Hty Hch Ha Hnt Ht Hb|d body ns Hid Hty Hch Ha Hb];
     intros f ind w Hf; (destruct f as [|f]; [cbn in Hf; lia|]); rewrite tosieve_S; cbn [node_def node_children].
-  - destruct (args_layout_c d am em [] [] (fun t => tosieve f t 0) (fun t => tosieve f t ind) _ _ Hs) as (E & _).
+  - destruct (args_layout_c _ d am em [] [] (fun t => tosieve f t 0) (fun t => tosieve f t ind) _ _ Hs) as (E & _).
     rewrite E, Hch. cbn [negb lt_cmd lrender]. rewrite lrender_app. cbn [lrender app].
     destruct (d_type d); try congruence; unfold sp; rewrite ?app_nil_r;
       repeat (rewrite <- app_assoc || rewrite <- app_comm_cons); reflexivity.
@@ -819,7 +834,7 @@ Qed.
 Lemma canon_test_pr : forall t n, canon_test t n -> test_pr t.
 Proof.
   fix IH 3. intros t n H. destruct H as [d args am em Hid Hty Hs|d a t' n' Hid Hty Ha Hnt Ht|d a ts ns Hid Hty Ha Htl Hne Hall].
-  - constructor; [exact Hid|]. apply (args_layout d am em [] [] (fun _ => []) (fun _ => []) _ _ Hs).
+  - constructor; [exact Hid|]. apply (args_layout _ d am em [] [] (fun _ => []) (fun _ => []) _ _ Hs).
   - constructor; [exact Hid|]. apply (IH t' n' Ht).
   - constructor; [exact Hid|exact Hne|]. clear Hne.
     induction Hall as [|t0 n0 ts0 ns0 H0 Hr IHr]; constructor; [apply (IH t0 n0 H0)|exact IHr].
@@ -831,7 +846,7 @@ Proof.
   assert (G : forall body ns, Forall2 canon_cmd body ns -> Forall cmd_pr body).
   { intros body ns Hb. induction Hb as [|c0 n0 b0 ns0 H0 Hr IHr]; constructor; [apply (IH c0 n0 H0)|exact IHr]. }
   destruct H as [d args am em Hid Hty Hch Hs|d a t nt body ns Hid Hty Hch Ha Hnt Ht Hb|d body ns Hid Hty Hch Ha Hb].
-  - constructor; [exact Hid|]. apply (args_layout d am em [] [] (fun _ => []) (fun _ => []) _ _ Hs).
+  - constructor; [exact Hid|]. apply (args_layout _ d am em [] [] (fun _ => []) (fun _ => []) _ _ Hs).
   - constructor; [exact Hid|apply (canon_test_pr t nt Ht)|apply (G body ns Hb)].
   - constructor; [exact Hid|apply (G body ns Hb)].
 Qed.
@@ -868,7 +883,7 @@ Print Assumptions print_parse_roundtrip.
 
 (* constructors with names and maps as equations (for concrete trees) *)
 Lemma ct_simple' : forall name d args am em,
-  name = d_name d -> ident_ok name = true -> d_type d = CTest -> slots_args d am em (d_args d) args ->
+  name = d_name d -> ident_ok name = true -> d_type d = CTest -> slots_args (sepw name) d am em (d_args d) args ->
   canon_test (GSimple name args) (Node d am em [] []).
 Proof. intros; subst; constructor; assumption. Qed.
 Lemma ct_not' : forall name d a t' n' am,
@@ -883,7 +898,7 @@ Lemma ct_list' : forall name d a ts ns am,
 Proof. intros; subst; eapply ct_list; eassumption. Qed.
 Lemma cc_act' : forall name d args am em,
   name = d_name d -> ident_ok name = true -> d_type d <> CTest -> d_accept_children d = false ->
-  slots_args d am em (d_args d) args -> canon_cmd (GAct name args) (Node d am em [] []).
+  slots_args (sepw name) d am em (d_args d) args -> canon_cmd (GAct name args) (Node d am em [] []).
 Proof. intros; subst; constructor; assumption. Qed.
 Lemma cc_ctl' : forall name d a t nt body ns am,
   name = d_name d -> ident_ok name = true -> d_type d = CControl -> d_accept_children d = true -> d_args d = [a] ->
@@ -894,3 +909,146 @@ Lemma cc_else' : forall name d body ns,
   name = d_name d -> ident_ok name = true -> d_type d = CControl -> d_accept_children d = true -> d_args d = [] ->
   Forall2 canon_cmd body ns -> canon_cmd (GElse name body) (Node d [] [] ns []).
 Proof. intros; subst; eapply cc_else; eassumption. Qed.
+
+(* ---------------------------------------------------------------- trees that stand for a script *)
+
+(* the text printed for a tree that stands for the script [cs] (the tree need not be the one the parser builds:
+   a list may be stored as its text) parses to the tree of [cs] *)
+Theorem print_parses : forall T cs ns nsp L' f,
+  twf_tables T = true ->
+  wf_cmds T [] None cs nsp L' -> Forall2 canon_cmd cs ns -> cs <> [] ->
+  fold_right (fun x m => Nat.max (dc x) m) 0 cs <= f ->
+  parse T (tosieve_all f ns) = Accept nsp.
+Proof.
+  intros T cs ns nsp L' f HT Hwf Hc Hne Hf.
+  rewrite (tosieve_layout cs ns f Hc Hne Hf).
+  apply (layout_parses T cs nsp L' HT Hwf).
+  clear Hwf Hne Hf. induction Hc as [|c n cs ns H0 Hr IHr]; constructor; [apply (canon_cmd_pr c n H0)|exact IHr].
+Qed.
+
+(* ---------------------------------------------------------------- hash comments before top-level commands
+   (the form FiltersSet.tosieve writes: "# Filter: name" on a line of its own before each filter) *)
+
+Fixpoint lt_cms (w : bytes) (cms : list bytes) : list ltok :=
+  match cms with [] => [] | x :: r => (w, THashComment, x) :: lt_cms [10%N] r end.
+
+Definition lt_top (w : bytes) (x : list bytes * gcmd) : list ltok :=
+  lt_cms w (fst x) ++ lt_cmd 0 (match fst x with [] => w | _ => [10%N] end) (snd x).
+
+Fixpoint lt_tops (w : bytes) (tops : list (list bytes * gcmd)) : list ltok :=
+  match tops with [] => [] | x :: r => lt_top w x ++ lt_tops [10%N] r end.
+
+Definition tops_text (tops : list (list bytes * gcmd)) : bytes := lrender (lt_tops [] tops) ++ [10%N].
+
+Lemma ltoks_cms : forall cms w, ltoks (lt_cms w cms) = ctoks cms.
+Proof. induction cms as [|x r IH]; intro w; [reflexivity|]. cbn [lt_cms ctoks map]. rewrite ltoks_cons. f_equal. apply IH. Qed.
+
+Lemma ltoks_tops : forall tops w, ltoks (lt_tops w tops) = flat_map toks_top tops.
+Proof.
+  induction tops as [|[cms c] r IH]; intro w; [reflexivity|].
+  cbn [lt_tops flat_map]. unfold lt_top. cbn [fst snd]. rewrite !ltoks_app, ltoks_cms, ltoks_cmd, IH.
+  change (toks_top (cms, c)) with (ctoks cms ++ toks_cmd c). rewrite <- app_assoc. reflexivity.
+Qed.
+
+Definition top_pr (x : list bytes * gcmd) : Prop := Forall hash_ok (fst x) /\ cmd_pr (snd x).
+
+Lemma lt_cmd_head : forall c ind w, exists name r, lt_cmd ind w c = (w ++ sp ind, TIdentifier, name) :: r.
+Proof. intros [name args|name t body|name body] ind w; cbn [lt_cmd]; eauto. Qed.
+
+Lemma lchain_cms : forall cms w X, all_space w -> Forall hash_ok cms -> (exists t, X = 10%N :: t) -> lchain (lt_cms w cms) X.
+Proof.
+  induction cms as [|x r IH]; intros w X Hw Hall HX; [exact I|].
+  inversion Hall as [|x' r' Hx Hr]; subst. cbn [lt_cms lchain].
+  split; [exact Hw|]. split; [exact Hx|]. split; [|apply IH; [exact space_10|exact Hr|exact HX]].
+  destruct r as [|y r2]; cbn [lt_cms lrender app]; right; [destruct HX as (t & ->)|]; eexists; reflexivity.
+Qed.
+
+Lemma lchain_tops : forall tops w X, all_space w -> Forall top_pr tops -> lchain (lt_tops w tops) X.
+Proof.
+  induction tops as [|[cms c] r IH]; intros w X Hw Hall; [exact I|].
+  inversion Hall as [|x' r' [Hcm Hc] Hr]; subst. cbn [fst snd] in *. cbn [lt_tops]. unfold lt_top. cbn [fst snd].
+  rewrite <- app_assoc. apply lchain_app.
+  - destruct cms as [|c1 cr]; [exact I|].
+    apply lchain_cms; [exact Hw|exact Hcm|].
+    destruct (lt_cmd_head c 0 [10%N]) as (nm & r0 & E). rewrite lrender_app, E. cbn [lrender app]. eexists. reflexivity.
+  - apply lchain_app; [apply lchain_cmd; [exact Hc|destruct cms; [exact Hw|exact space_10]]|apply IH; [exact space_10|exact Hr]].
+Qed.
+
+Theorem tops_lex : forall tops, Forall top_pr tops ->
+  snd (lex (tops_text tops)) = None /\ map strip_pos (fst (lex (tops_text tops))) = flat_map toks_top tops.
+Proof.
+  intros tops Hp. unfold tops_text.
+  destruct (lex_lrender (lt_tops [] tops) [10%N] (lchain_tops tops [] [10%N] space_nil Hp) space_10) as (A & B).
+  rewrite ltoks_tops in B. auto.
+Qed.
+
+(* a commented script, laid out that way, parses to its tree with the comments attached *)
+Theorem tops_parse : forall T tops ns L',
+  twf_tables T = true -> wf_tops T [] None tops ns L' -> Forall top_pr tops ->
+  parse T (tops_text tops) = Accept ns.
+Proof.
+  intros T tops ns L' HT Hwf Hp. destruct (tops_lex tops Hp) as (A & B).
+  exact (parse_commented_script T (tops_text tops) tops ns L' HT A B Hwf).
+Qed.
+
+(* what FiltersSet.tosieve writes: for each item its comment lines, then its tree *)
+Definition set_text (f : nat) (items : list (list bytes * node)) : bytes :=
+  concat (map (fun x => concat (map (fun c => c ++ [10%N]) (fst x)) ++ tosieve f (snd x) 0) items).
+
+Definition top_canon (x : list bytes * gcmd) (y : list bytes * node) : Prop :=
+  fst x = fst y /\ canon_cmd (snd x) (snd y).
+
+Lemma cms_text : forall cms w R, cms <> [] ->
+  w ++ concat (map (fun c => c ++ [10%N]) cms) ++ R = lrender (lt_cms w cms) ++ 10%N :: R.
+Proof.
+  induction cms as [|x r IH]; intros w R Hne; [congruence|].
+  cbn [map concat lt_cms lrender]. destruct r as [|y r2].
+  - cbn [map concat lt_cms lrender app]. rewrite <- !app_assoc. reflexivity.
+  - rewrite <- !app_assoc. rewrite <- (IH [10%N] R) by discriminate. rewrite <- ?app_assoc. reflexivity.
+Qed.
+
+Theorem set_layout : forall tops items f,
+  Forall2 top_canon tops items -> tops <> [] ->
+  fold_right (fun x m => Nat.max (dc (snd x)) m) 0 tops <= f ->
+  set_text f items = tops_text tops.
+Proof.
+  intros tops items f H Hne Hd. unfold tops_text.
+  assert (G : forall w, tops <> [] -> w ++ set_text f items = lrender (lt_tops w tops) ++ [10%N]); [|exact (G [] Hne)].
+  clear Hne. induction H as [|[cms c] [cms' n] tops items [Hc Hn] Hr IH]; intros w Hne; [congruence|].
+  cbn [fst snd] in *. subst cms'. cbn [fold_right snd] in Hd.
+  assert (Tl : [10%N] ++ set_text f items = lrender (lt_tops [10%N] tops) ++ [10%N]).
+  { destruct Hr as [|t0 i0 tops0 items0 H0 Hr0]; [reflexivity|]. apply IH; [lia|discriminate]. }
+  unfold set_text. cbn [map concat fst snd]. fold (set_text f items).
+  cbn [lt_tops]. unfold lt_top. cbn [fst snd]. rewrite !lrender_app.
+  destruct cms as [|c1 cr].
+  - cbn [map concat lt_cms lrender app].
+    rewrite app_assoc, (cmd_layout c n Hn f 0 w ltac:(lia)), <- !app_assoc, Tl. reflexivity.
+  - rewrite <- !app_assoc. rewrite (cms_text (c1 :: cr) w _ ltac:(discriminate)).
+    f_equal.
+    change (10%N :: tosieve f n 0 ++ set_text f items) with (([10%N] ++ tosieve f n 0) ++ set_text f items).
+    rewrite (cmd_layout c n Hn f 0 [10%N] ltac:(lia)), <- !app_assoc, Tl. reflexivity.
+Qed.
+
+(* the text FiltersSet.tosieve writes for trees that stand for a commented script parses to the tree of that
+   script, every comment attached (stripped) to the command it precedes *)
+Theorem set_parses : forall T tops items ns L' f,
+  twf_tables T = true -> wf_tops T [] None tops ns L' ->
+  Forall2 top_canon tops items -> Forall (fun x => Forall hash_ok (fst x)) tops -> tops <> [] ->
+  fold_right (fun x m => Nat.max (dc (snd x)) m) 0 tops <= f ->
+  parse T (set_text f items) = Accept ns.
+Proof.
+  intros T tops items ns L' f HT Hwf Hc Hh Hne Hf.
+  rewrite (set_layout tops items f Hc Hne Hf).
+  apply (tops_parse T tops ns L' HT Hwf).
+  clear Hwf Hne Hf. induction Hc as [|x y tops items [_ H0] Hr IHr]; [constructor|].
+  inversion Hh as [|x' r' Hx Hr']; subst. constructor; [split; [exact Hx|apply (canon_cmd_pr _ _ H0)]|apply IHr; exact Hr'].
+Qed.
+
+Print Assumptions set_parses.
+
+End Sep.
+
+(* the separator of Command.tosieve for trees built by the parser: a blank after every comma *)
+Definition std_sep : bytes -> bytes := fun _ => [32%N].
+Lemma std_sep_space : forall name, all_space (std_sep name).
+Proof. reflexivity. Qed.
